@@ -136,7 +136,7 @@ def create_backup_archive(
             secret_data = secrets.get(name)
             if secret_data is not None:
                 secret_yaml = yaml.dump(secret_data, default_flow_style=False).encode()
-                if encryption_password:
+                if encryption_password is not None:
                     encrypted = encrypt(secret_yaml, encryption_password)
                     _add_bytes_to_tar(tar, f"{name}.secret.enc", encrypted)
                 else:
